@@ -1,1 +1,90 @@
-fn main(){}
+//! Recorder command run by xargs / find -exec in the conformance harness.
+//! Environment:
+//!   VREC_LOG     file to append one JSON line per invocation to (O_APPEND)
+//!   VREC_SCRIPT  optional file: JSON array of outcomes, the k-th invocation (0-based, counted
+//!                by the lines already in the log) takes outcome k: n = exit status n,
+//!                1000+s = kill self with signal s; missing entries mean 0
+//!   VREC_MODE    "full" (default): {"a":[hex argv[1..]], "cwd":hex}
+//!                "sum": {"n":argc-1,"bytes":sum of len+1,"first":hex,"last":hex,"h":fnv over all args,
+//!                        "envc":count,"envbytes":sum of len+1, "maxlen":longest}
+use std::io::Write;
+use std::os::unix::ffi::OsStrExt;
+
+fn hex(b: &[u8]) -> String {
+    let mut s = String::with_capacity(b.len() * 2);
+    for x in b {
+        s.push_str(&format!("{:02x}", x));
+    }
+    s
+}
+
+fn main() {
+    let log = match std::env::var_os("VREC_LOG") {
+        Some(l) => l,
+        None => std::process::exit(97),
+    };
+    let args: Vec<Vec<u8>> = std::env::args_os().skip(1).map(|a| a.as_bytes().to_vec()).collect();
+    let cwd = std::env::current_dir().map(|p| p.as_os_str().as_bytes().to_vec()).unwrap_or_default();
+    let seq = std::fs::read(&log).map(|c| c.iter().filter(|b| **b == b'\n').count()).unwrap_or(0);
+    let mode = std::env::var("VREC_MODE").unwrap_or_else(|_| "full".into());
+    let line = if mode == "sum" {
+        let mut h: u64 = 0xcbf29ce484222325;
+        let mut bytes = 0usize;
+        let mut maxlen = 0usize;
+        for a in &args {
+            for b in a.iter().chain([0u8].iter()) {
+                h ^= *b as u64;
+                h = h.wrapping_mul(0x100000001b3);
+            }
+            bytes += a.len() + 1;
+            maxlen = maxlen.max(a.len());
+        }
+        let (mut envc, mut envbytes) = (0usize, 0usize);
+        for (k, v) in std::env::vars_os() {
+            envc += 1;
+            envbytes += k.len() + v.len() + 2;
+        }
+        format!(
+            "{{\"n\":{},\"bytes\":{},\"first\":\"{}\",\"last\":\"{}\",\"h\":\"{:016x}\",\"envc\":{},\"envbytes\":{},\"maxlen\":{},\"cwd\":\"{}\"}}\n",
+            args.len(),
+            bytes,
+            args.first().map(|a| hex(&a[..a.len().min(64)])).unwrap_or_default(),
+            args.last().map(|a| hex(&a[..a.len().min(64)])).unwrap_or_default(),
+            h,
+            envc,
+            envbytes,
+            maxlen,
+            hex(&cwd)
+        )
+    } else {
+        let a: Vec<String> = args.iter().map(|a| format!("\"{}\"", hex(a))).collect();
+        format!("{{\"a\":[{}],\"cwd\":\"{}\"}}\n", a.join(","), hex(&cwd))
+    };
+    let mut f = std::fs::OpenOptions::new().create(true).append(true).open(&log).expect("vrec log");
+    f.write_all(line.as_bytes()).expect("vrec write");
+    drop(f);
+    let mut outcome: i64 = 0;
+    if let Some(sp) = std::env::var_os("VREC_SCRIPT") {
+        if let Ok(txt) = std::fs::read_to_string(sp) {
+            let nums: Vec<i64> = txt
+                .trim()
+                .trim_start_matches('[')
+                .trim_end_matches(']')
+                .split(',')
+                .filter_map(|x| x.trim().parse().ok())
+                .collect();
+            if seq < nums.len() {
+                outcome = nums[seq];
+            }
+        }
+    }
+    if outcome >= 1000 {
+        unsafe {
+            libc::signal((outcome - 1000) as i32, libc::SIG_DFL);
+            libc::kill(libc::getpid(), (outcome - 1000) as i32);
+        }
+        std::thread::sleep(std::time::Duration::from_secs(5));
+        std::process::exit(98);
+    }
+    std::process::exit(outcome as i32);
+}
